@@ -1,4 +1,4 @@
-import ZapVerif.Proofs.GoMini
+import ZapVerif.Proofs.GoMiniFuel
 import ZapVerif.Gen.TransProbe
 /-! # CTR — self-test of the Go→GoMini translator (not a zap property)
 
@@ -31,5 +31,11 @@ theorem probe_bounds :
     run X 1 "probeIndex" [.bytes [1, 2, 3], .int 3] [] = .panic .index ∧
     run X 1 "probeIndex" [.bytes [1, 2, 3], .int (-1)] [] = .panic .index := by
   refine ⟨?_, ?_, ?_, ?_, ?_⟩ <;> rfl
+
+/-- fuel monotonicity of the interpreter, for every program and state: an execution that does not run out of fuel
+    is unchanged by more fuel — `Out.oof` is the only fuel-dependent outcome, so "`fuel + k` units suffice" in the
+    `…_matches_source` theorems means "every amount from `k` on gives this same result" -/
+theorem fuel_monotone (X : Ctx) (fuel extra : Nat) (s : Stmt) (σ : State) (h : exec X fuel s σ ≠ .oof) :
+    exec X (fuel + extra) s σ = exec X fuel s σ := exec_mono X fuel extra s σ h
 
 end ZapVerif.CTR
